@@ -46,8 +46,8 @@ class Coerced:
 class Ctor:
     """a candle built by the constructor: slots by parameter name"""
 
-    def __init__(self, slots: Dict[str, Any]):
-        self.slots = slots
+    def __init__(self, slots: Dict[str, Any], cls: str = "Candle"):
+        self.slots, self.cls = slots, cls
 
     def __repr__(self):
         return "Candle(" + ", ".join(f"{k}={v!r}" for k, v in self.slots.items()) + ")"
@@ -72,8 +72,8 @@ class ObjV:
 
 
 class Closure:
-    def __init__(self, node, env, owner=None):
-        self.node, self.env, self.owner = node, env, owner
+    def __init__(self, node, env, owner=None, interp=None):
+        self.node, self.env, self.owner, self.interp = node, env, owner, interp
 
 
 class BoundBuiltin:
@@ -106,6 +106,24 @@ class Interp:
         self.mutated: List[str] = []  # names of input containers mutated in place
         self.inputs: Dict[int, str] = {}
         self.intercept: Dict[str, Any] = {}  # function name -> python callable(args, kwargs) standing for a repo function
+        self.children: Dict[str, "Interp"] = {}
+
+    def foreign(self, clsname: str):
+        """the interpreter of another class of the package (shares budget-free state; looked up by class name)"""
+        if clsname in self.children:
+            return self.children[clsname]
+        for mn, mi in self.repo.modules.items():
+            if any(isinstance(n, ast.ClassDef) and n.name == clsname for n in mi.tree.body):
+                try:
+                    ch = Interp(self.repo, mn, clsname)
+                except (Undecided, StopIteration):
+                    return None
+                ch.intercept = self.intercept
+                ch.inputs = self.inputs
+                ch.mutated = self.mutated
+                self.children[clsname] = ch
+                return ch
+        return None
 
     # ---- helpers ------------------------------------------------------------------------------------------------------------
     def method(self, name):
@@ -218,7 +236,7 @@ class Interp:
             if k not in self.ctor_params:
                 raise Raised(f"TypeError: constructor has no slot {k}")
             slots[k] = v
-        return Ctor(slots)
+        return Ctor(slots, self.clsname)
 
     # ---- statements ---------------------------------------------------------------------------------------------------------
     def block(self, stmts, env):
@@ -251,6 +269,12 @@ class Interp:
                 self.assign(tgt.elts[i].value, vals[i:len(vals) - after], env)
                 for e, x in zip(tgt.elts[i + 1:], vals[len(vals) - after:]):
                     self.assign(e, x, env)
+        elif isinstance(tgt, ast.Attribute):
+            obj = self.eval(tgt.value, env)
+            if isinstance(obj, ObjV):
+                obj.attrs[tgt.attr] = v
+            else:
+                raise Undecided(f"attribute store on {obj!r}")
         elif isinstance(tgt, ast.Subscript):
             obj = self.eval(tgt.value, env)
             key = self.eval(tgt.slice, env) if not isinstance(tgt.slice, ast.Slice) else None
@@ -358,6 +382,8 @@ class Interp:
             if c is not _MISSING:
                 return c
             if e.id in _TYPE_NAMES:
+                return TypeRef(e.id)
+            if e.id[:1].isupper() and any(isinstance(n, ast.ClassDef) and n.name == e.id for mi_ in self.repo.modules.values() for n in mi_.tree.body):
                 return TypeRef(e.id)
             if e.id in ("None", "True", "False"):
                 return {"None": None, "True": True, "False": False}[e.id]
@@ -534,7 +560,7 @@ class Interp:
         if isinstance(v, Coerced):
             return {"int": "int", "float": "float", "str": "str", "bool": "bool"}.get(v.fn, "float")
         if isinstance(v, Ctor):
-            return self.clsname
+            return v.cls
         if isinstance(v, ObjV):
             return v.cls or "object"
         if v is None:
@@ -550,10 +576,24 @@ class Interp:
             if c is not _MISSING:
                 return c
             raise Undecided(f"{self.clsname}.{attr}")
+        if isinstance(obj, TypeRef):
+            ch = self.foreign(obj.name)
+            if ch is not None:
+                m = ch.method(attr)
+                if m is not None:
+                    return Closure(m, {}, owner="cls", interp=ch)
+                c = ch.class_const(attr)
+                if c is not _MISSING:
+                    return c
+            raise Undecided(f"{obj.name}.{attr}")
         if isinstance(obj, ObjV):
             if attr in obj.attrs:
                 return obj.attrs[attr]
             m = self.method(attr) if obj.cls == self.clsname else None
+            if m is None and obj.cls == self.clsname:
+                c = self.class_const(attr)  # a class-level default the instance has not overwritten
+                if c is not _MISSING:
+                    return c
             if m is not None:
                 decos = [ast.unparse(d) for d in m.decorator_list]
                 if "property" in decos:
@@ -587,7 +627,19 @@ class Interp:
         if isinstance(f, TypeRef):
             if f.name == self.clsname:
                 return self.construct(args, kwargs)
+            if f.name not in ("datetime", "float", "int", "str", "dict", "list", "tuple", "bool", "set", "object", "timedelta"):
+                ch = self.foreign(f.name)
+                if ch is not None:
+                    return ch.construct(args, kwargs)
             return self.builtin(None, f.name, args, kwargs)
+        if isinstance(f, Closure) and f.interp is not None and f.interp is not self:
+            f2 = Closure(f.node, f.env, f.owner, None)
+            f.interp.depth = self.depth
+            f.interp.steps = self.steps
+            try:
+                return f.interp.apply(f2, args, kwargs)
+            finally:
+                self.steps = f.interp.steps
         if isinstance(f, Closure):
             fn = f.node
             decos = [ast.unparse(d) for d in fn.decorator_list]
@@ -602,6 +654,8 @@ class Interp:
             return self.call_function(fn, args, dict(kwargs), f.env)
         if isinstance(f, BoundBuiltin):
             return self.builtin(f.recv, f.name, args, kwargs)
+        if callable(f) and not isinstance(f, (Sym, Coerced, Ctor, ObjV, TypeRef)):
+            return f(args, kwargs)  # a stand-in handed in by the rule (method of a scenario object)
         raise Undecided(f"call of {f!r}")
 
     def builtin(self, recv, name, args, kwargs):
